@@ -85,4 +85,43 @@ def addShape (n : Nat) (w h : Nat) (img : Array (Array Nat)) (s : Shape) : Array
   (Array.range h).map fun (r : Nat) => (Array.range w).map fun (c : Nat) =>
     pixelValue n ((img[r]?.getD #[])[c]?.getD 0) (pixelCount n s (c : Int) (r : Int))
 
+/-! ### triangles: the triangle's own inside test (no decomposition)
+
+  A sample lies inside the triangle when, on its sample row, it lies between two sides of the
+  triangle that cross the row — left inclusive, right exclusive, a side crossing the rows
+  `yTop ≤ sy < yBot` (top inclusive, bottom exclusive; a horizontal side crosses none), with the same
+  snapped abscissae as for trapezoid edges.  The definition is symmetric in the three vertices. -/
+
+/-- a triangle in image space -/
+structure Tri where
+  x1 : Int
+  y1 : Int
+  x2 : Int
+  y2 : Int
+  x3 : Int
+  y3 : Int
+deriving Repr, DecidableEq, Inhabited
+
+/-- the side between two vertices as a line oriented downwards (a horizontal one from left to right,
+    so that the side does not depend on the order of its end points) -/
+def sideOf (ax ay bx by' : Int) : EdgeLine :=
+  if ay < by' ∨ (ay = by' ∧ ax ≤ bx) then ⟨ax, ay, bx, by'⟩ else ⟨bx, by', ax, ay⟩
+
+/-- the side crosses the sample row `sy` -/
+def EdgeLine.crosses (e : EdgeLine) (sy : Int) : Bool := decide (e.yTop ≤ sy ∧ sy < e.yBot)
+
+/-- the sample at `(sx, sy)` lies between two sides crossing its row -/
+def triInside (t : Tri) (sy sx : Int) : Bool :=
+  let es := [sideOf t.x1 t.y1 t.x2 t.y2, sideOf t.x2 t.y2 t.x3 t.y3, sideOf t.x3 t.y3 t.x1 t.y1]
+  es.any fun a => es.any fun b =>
+    a.crosses sy && b.crosses sy && decide (a.snapX sy ≤ sx ∧ sx < b.snapX sy)
+
+/-- number of samples of pixel column `c` on the sample row `sy` inside the triangle -/
+def triRowCount (n : Nat) (t : Tri) (sy : Int) (c : Int) : Nat :=
+  (List.range (nXFrac n).toNat).countP fun j => triInside t sy (colPos n c j - snapDelta n)
+
+/-- number of grid samples of pixel `(c, r)` inside the triangle -/
+def triCount (n : Nat) (t : Tri) (c r : Int) : Nat :=
+  ((List.range (nYFrac n).toNat).map fun k => triRowCount n t (rowPos n r k) c).sum
+
 end Pixman.Spec.SampleGrid
